@@ -103,7 +103,8 @@ class ValidRange(Job):
         self.n, self.kind, self.si, self.ei, self.pass_flags, self.canary = n, kind, start_inclusive, end_inclusive, pass_flags, canary
         self.frac = frac       # datetime64 only: timestamps and bounds carry a sub-second part (any ns)
         self.name = (f"valid_range {kind} n={n} start_inclusive={start_inclusive} end_inclusive={end_inclusive}"
-                     + ("" if pass_flags else " (defaults)") + (" sub-second stamps" if frac else "") + (f" CANARY={canary}" if canary else ""))
+                     + ({True: "", False: " (defaults)", "start": " (only start_inclusive passed)", "end": " (only end_inclusive passed)"}[pass_flags])
+                     + (" sub-second stamps" if frac else "") + (f" CANARY={canary}" if canary else ""))
         if frac:
             self.offgrid = None
         if canary:
@@ -131,8 +132,12 @@ class ValidRange(Job):
             inp = K.tarray(S.x)
             span = tuple(K.tnone(v) for v in S.span)
         kw = {}
-        if self.pass_flags:
+        if self.pass_flags is True:
             kw = {"start_inclusive": self.si, "end_inclusive": self.ei}
+        elif self.pass_flags == "start":
+            kw = {"start_inclusive": self.si}
+        elif self.pass_flags == "end":
+            kw = {"end_inclusive": self.ei}
         return mods.axds.valid_range_test(inp, valid_span=span, **kw)
 
     def holds(self, S, out):
@@ -143,7 +148,9 @@ class ValidRange(Job):
         val = (lambda v: v.v) if isf else (lambda v: z3.ToReal(v.s) + v.f if getattr(v, "f", None) is not None else v.s)
         miss = (lambda v: v.nan) if isf else (lambda v: v.nat)
         lo, hi = S.span
-        si, ei = (self.si, self.ei) if self.pass_flags else (True, False)
+        # documented defaults: start_inclusive=True, end_inclusive=False - each on its own
+        si = self.si if self.pass_flags in (True, "start") else True
+        ei = self.ei if self.pass_flags in (True, "end") else False
         if self.canary == "end_inclusive_flip":
             ei = not ei
         for i, x in enumerate(S.x):
@@ -173,6 +180,8 @@ def jobs(tier):
                 for ei in (True, False):
                     out.append(ValidRange(n, kind, si, ei))
         out.append(ValidRange(2, kind, True, False, pass_flags=False))
+        out.append(ValidRange(2, kind, False, False, pass_flags="start"))
+        out.append(ValidRange(2, kind, True, True, pass_flags="end"))
     for si in (True, False):
         for ei in (True, False):
             out.append(ValidRange(2, "datetime64", si, ei, frac=True))
